@@ -1,6 +1,6 @@
 // bounded stand-in / replay driver (appended to acts/src/cache/tests.rs of a scratch copy): property C09, the message-table functions of
 // acts/src/cache/store.rs on the REAL in-memory store: set_message_with, with_no_response_messages, resend_error_messages,
-// clear_error_messages.  Table: 2 processes x 2 tasks x the 4 message statuses (16 rows, old update_time); after each call every row is
+// clear_error_messages, and the client-facing MessageExecutor::ack.  Table: 2 processes x 2 tasks x the 4 message statuses (16 rows, old update_time); after each call every row is
 // compared with the statement: an ack / action closes EVERY message of that task whatever its status and touches no other row; the
 // retry step re-delivers exactly the unanswered `created` rows, counts the retry, and marks a row `error` once the limit is reached;
 // resend turns exactly the `error` rows back to `created` with a fresh count; clear removes exactly the `error` rows (of one pid).
@@ -83,6 +83,27 @@ async fn verif_replay_msg_table() {
         for (id, b) in before.iter() {
             let gone = b.status == MessageStatus::Error && pid.as_ref().map(|p| *p == b.pid).unwrap_or(true);
             if gone == after.contains_key(id) { bad.push(format!("REPLAY-FAIL clear_error_messages({pid:?}): message {id} (pid {}, status {:?}) {}", b.pid, b.status, if gone { "was kept" } else { "was removed" })); }
+        }
+    }
+    // 5. the client-facing ack (MessageExecutor::ack -> Runtime::ack): an accepted ack marks exactly that message acked, whatever its status was
+    //    ("once acknowledged ... a message is never redelivered": an acked message is neither retried nor turned back by a later redo)
+    {
+        fill(&store);
+        let before = rows(&store);
+        let executor = engine.executor();
+        let exec = executor.msg();
+        for id in ["m000", "m003", "m112"] {
+            let r = exec.ack(id);
+            if r.is_err() { bad.push(format!("REPLAY-FAIL ack({id}) was refused: {r:?}")); }
+            if !before.contains_key(id) { bad.push(format!("REPLAY-FAIL driver: no message {id} in the table")); }
+        }
+        store.resend_error_messages().unwrap();
+        let after = rows(&store);
+        for (id, b) in before.iter() {
+            let a = after.get(id).cloned().unwrap_or_default();
+            let acked = ["m000", "m003", "m112"].contains(&id.as_str());
+            if acked && a.status != MessageStatus::Acked { bad.push(format!("REPLAY-FAIL ack + redo: message {id} (status {:?} when the client acknowledged it, ack returned Ok) is now {:?}: it will be delivered again", b.status, a.status)); }
+            if !acked && b.status != MessageStatus::Error && (a.status != b.status || a.retry_times != b.retry_times) { bad.push(format!("REPLAY-FAIL ack: message {id} was touched by the ack of another message")); }
         }
     }
     for b in bad.iter().take(12) { println!("{b}"); }
